@@ -121,7 +121,7 @@ func runC06(r *core.Run) {
 	runC06Order(r)
 	depth := core.Pick(r, 3, 4)
 	ops := c06Ops(len(c06Docs))
-	for _, cn := range []string{"core", "gfm", "all+autoid+attr", "all+cjk+autoid+attr+xhtml+align=style"} {
+	for _, cn := range []string{"core", "gfm", "all+autoid+attr", "all+cjk+autoid+attr+xhtml+align=style", "custom+autoid+attr+unsafe"} {
 		cfg := core.MustCfg(cn)
 		fresh := make([][]byte, len(c06Docs))
 		for i, d := range c06Docs {
